@@ -189,7 +189,7 @@ class Exec:
                 f = self.fault_for('updatekey', p)
                 if f is not None:
                     self.fired.append(f)
-                    bad = ('n', 99) if f[3] == 'n' else ('k', 'other') if f[3] == 'k' else ('nosuch', 1)
+                    bad = ('n', 99) if f[3] == 'n' else ('k', 'other') if f[3] == 'k' else ('e', 'yes') if f[3] == 'e' else ('nosuch', 1)
                     items.insert(f[2], bad)
                     self.rejected_at = f[2]
                 for kk, vv in items:
@@ -369,7 +369,7 @@ def run_case(idx, rng, P, rep):
     sites = [('watcher', k) for k in range(1, n_inv + 1)]
     for s in count_sites(prog):
         if s[0] == 'updatekey':
-            for badkind in ('n', rng.choice(['k', 'nosuch'])):
+            for badkind in ('n', rng.choice(['k', 'nosuch', 'e'])):
                 sites.append(('updatekey', s[1], s[2], badkind))
         else:
             sites.append(s)
